@@ -61,6 +61,10 @@ class C13(Prop):
         def case(src, ok, stream, nontrivial=True):
             ops = "prepare:" + rng.choice(["opt", "noopt"])
             exp = {"o0.prep": "ok" if ok else "error"}
+            if rng.random() < 0.25:
+                # preparing the same evaluator again gives the same verdict
+                ops += ";prepare:" + rng.choice(["opt", "noopt"])
+                exp["o1.prep"] = exp["o0.prep"]
             return Case("run", {"script": vlib.hx(src), "objs": "N", "ops": ops}, stream, expect=exp, note=src, nontrivial=nontrivial)
         def nest(ctxs, frag, depth):
             s = frag
